@@ -112,6 +112,7 @@ inline std::set<std::string> conditional_fields(const mjModel* m, bool inverse_c
                         "qH", "qHDiagInv", "qDeriv", "qLU",                                              // integrator scratch (which one is used depends on the integrator)
                         "wrap_obj", "wrap_xpos", "actuator_moment", "moment_colind",                      // written up to a count only
                         "flexedge_length", "flexvert_length",                                             // computed only for flexes whose edges / vertex constraints can generate forces (mj_flex skips rigid and interpolated flexes)
+                        "bvh_aabb_dyn",                                                                   // dynamic BVH boxes: refreshed only for the flexes / nodes that the collision settings need
                         "flexelem_krot"})                                                                // cache of the implicit effective metric: written only when that metric is active (mjd_effBuild), read only then
     ex.insert(s);
   if (!inverse_called) ex.insert("qfrc_inverse");
